@@ -5,5 +5,7 @@ CONSTANTS
   Canonical = TRUE
   MaxOps = 5
   PathRank <- RankDef
+  ScriptPaths = {"u"}
+  ScriptContents = {"x", "y"}
 INVARIANTS OrderIndependent HEmit
 CHECK_DEADLOCK FALSE
